@@ -520,7 +520,9 @@ func refSplit(q string) []string {
 }
 
 func c19Split(c *mc.Check, maxLen int) {
-	syms := []string{"a", "b", " ", "\t", "\"", "\\"}
+	// only the blank and the tab separate words: other white space (a no-break space, a form feed, an
+	// ideographic space) is part of a word, as it is part of a label value
+	syms := []string{"a", "b", " ", "\t", "\"", "\\", "\u00a0", "\f", "\u3000"}
 	replay := func(raw json.RawMessage) string {
 		var s string
 		json.Unmarshal(raw, &s)
@@ -625,7 +627,7 @@ func TestVerifC19(t *testing.T) {
 		c19Space(c, mc.Pick(c, 2, 3), mc.Pick(c, 2, 3))
 		c19OneKey(c, mc.Pick(c, 5, 6))
 		c19Ladders(c)
-		c19Split(c, mc.Pick(c, 7, 8))
+		c19Split(c, mc.Pick(c, 6, 7))
 	}
 	if code := c.Finish(); code != 0 {
 		os.Exit(code)
